@@ -559,6 +559,51 @@ func main() {
 		}
 	})
 
+	// long lines: length is the sum of ALL segment lengths however many there are
+	lineLens := []int{3, 100, 128, 129, 130, 257, 513, 1000}
+	r.Explore("long-lines", fmt.Sprintf("unit staircases and 3-4-5 zigzags of %v vertices as line string, ring, polygon, multi-line-string and collection: Length is exactly the number of steps (x5 for the zigzag)", lineLens), mc.Opts{MaxDev: -1}, func(c *mc.Ctx) {
+		n := lineLens[c.Choose(len(lineLens))]
+		zig := c.Bool()
+		ls := make(orb.LineString, n)
+		x, y := 0.0, 0.0
+		for i := range ls {
+			if i > 0 {
+				switch {
+				case zig && i%2 == 1:
+					x, y = x+3, y+4
+				case zig:
+					x, y = x+4, y-3
+				case i%2 == 1:
+					x++
+				default:
+					y++
+				}
+			}
+			ls[i] = orb.Point{x, y}
+		}
+		want := float64(n - 1)
+		if zig {
+			want *= 5
+		}
+		closing := planar.Distance(ls[n-1], ls[0])
+		for _, lc := range []struct {
+			what string
+			g    orb.Geometry
+			want float64
+		}{
+			{"line string", ls, want},
+			{"multi-line-string", orb.MultiLineString{ls, ls[:n/2+1]}, want + want*float64(n/2)/float64(n-1)},
+			{"collection", orb.Collection{ls, orb.Point{1, 1}, orb.Collection{ls}}, 2 * want},
+			{"closed ring", append(orb.Ring(ls.Clone()), ls[0]), want + closing},
+			{"polygon", orb.Polygon{append(orb.Ring(ls.Clone()), ls[0])}, want + closing},
+		} {
+			if got := planar.Length(lc.g); math.Abs(got-lc.want) > 1e-9*lc.want {
+				c.Failf("long-line-length", "Length of the %s with %d vertices = %v, the sum of its segment lengths is %v", lc.what, n, got, lc.want)
+			}
+		}
+		c.NonTrivial()
+	})
+
 	// lower dimensions: multi-point (count weighted) and line strings (length weighted)
 	r.Explore("points-lines", "multi-points of 1..3 lattice points and line strings of 2..3 lattice points (axis-aligned / 3-4-5 steps so lengths are exact): centroid is the count- / length-weighted mean; collections of only such members", mc.Opts{MaxDev: -1}, func(c *mc.Ctx) {
 		t := c.Choose(len(transforms))
